@@ -25,7 +25,10 @@ def match(violation: dict[str, Any], entries: list[dict[str, Any]]) -> dict[str,
     for e in entries:
         if e.get("status") != "known":
             continue
-        if e.get("family") != violation.get("family"):
+        if "family_glob" in e:
+            if not fnmatch.fnmatchcase(str(violation.get("family")), str(e["family_glob"])):
+                continue
+        elif e.get("family") != violation.get("family"):
             continue
         kinds = e.get("kind")
         kinds = kinds if isinstance(kinds, list) else [kinds]
